@@ -821,6 +821,7 @@ fn gen_compose(rng: &mut Rng, tier: &str) -> Vec<(String, Value)> {
         for (aname, a) in &asserts {
             for (rname, r) in &rejs {
                 for pol in POLICIES {
+                    if *rname != "r_overlap" && pol != "reject" && tier != "thorough" { continue; }
                     let mut c = base_input(pol);
                     c["points"] = json!([point(vec![roa(asn, vec![entry(p, json!(24))])])]);
                     c["slurm"]["pfilters"] = f.clone();
@@ -939,7 +940,7 @@ fn gen_compose(rng: &mut Rng, tier: &str) -> Vec<(String, Value)> {
         }
     }
     // (g) structured random
-    let n = if tier == "thorough" { 6000 } else { 700 };
+    let n = if tier == "thorough" { 6000 } else { 300 };
     for i in 0..n {
         let mut r = rng.fork();
         cases.push((if i % 3 == 0 { "random.with_processor".into() } else { "random.hook".into() }, random_case(&mut r, i % 3 == 0)));
@@ -999,9 +1000,11 @@ fn gen_unsafe(rng: &mut Rng, tier: &str) -> Vec<(String, Value)> {
         p6("2001:db8::", 32), p6("::", 0), p6("2001:db8::1", 128), p6("::", 128), p6("ffff:ffff:ffff:ffff:ffff:ffff:ffff:ffff", 128),
         p6("::", 16), p6("ffff::", 16), p6("::a00:0", 112),
     ];
-    for p in &vrps {
+    for (k, p) in vrps.iter().enumerate() {
         for (rel, v4, b) in related_blocks(*p) {
             for pol in POLICIES {
+                // every policy for the first prefixes of each family, reject only for the others
+                if pol != "reject" && !(k < 2 || (8..10).contains(&k)) && tier != "thorough" { continue; }
                 let mut c = base_input(pol);
                 c["points"] = json!([point(vec![roa(asn, vec![entry(*p, Value::Null)])])]);
                 c["rejected"] = json!([cert_of(v4, b.clone())]);
@@ -1032,7 +1035,7 @@ fn gen_unsafe(rng: &mut Rng, tier: &str) -> Vec<(String, Value)> {
         cases.push(("combined.real_ca_cert_rejected".into(), c));
     }
     // (c) random: clustered prefixes and blocks
-    let n = if tier == "thorough" { 5000 } else { 600 };
+    let n = if tier == "thorough" { 5000 } else { 250 };
     for _ in 0..n {
         let mut r = rng.fork();
         let mut c = base_input(*r.pick(&POLICIES));
@@ -1065,7 +1068,8 @@ fn gen_slurm(rng: &mut Rng, tier: &str) -> Vec<(String, Value)> {
     // every filter prefix of the universe against every origin prefix of the universe, with / without ASN
     for f in &uni {
         for (an, fa) in [("prefix_only", Value::Null), ("prefix_and_asn", json!(64496))] {
-            let origins: Vec<Value> = uni.iter().flat_map(|o| vec![origin_j(*o, Value::Null, 64496), origin_j(*o, json!(width(o.v4)), 64497)]).collect();
+            let origins: Vec<Value> = uni.iter().enumerate().map(|(k, o)|
+                if k % 2 == 0 { origin_j(*o, Value::Null, 64496) } else { origin_j(*o, json!(width(o.v4)), 64497) }).collect();
             cases.push((format!("exhaustive.{}", an), json!({
                 "slurm": {"pfilters": [[f.json(), fa]], "kfilters": [], "origins": [], "keys": []}, "origins": origins, "keys": []})));
         }
@@ -1085,7 +1089,7 @@ fn gen_slurm(rng: &mut Rng, tier: &str) -> Vec<(String, Value)> {
         }
     }
     // random: filters derived from origin prefixes by truncation, one flipped bit, extension
-    let n = if tier == "thorough" { 4000 } else { 500 };
+    let n = if tier == "thorough" { 4000 } else { 250 };
     for _ in 0..n {
         let mut r = rng.fork();
         let origins: Vec<Value> = (0..r.range(3, 10)).map(|_| { let p = some_pfx(&mut r); let ml = rand_ml(&mut r, p); origin_j(p, ml, *r.pick(&ASNS)) }).collect();
@@ -1125,17 +1129,18 @@ fn gen_blocks(rng: &mut Rng, tier: &str) -> Vec<(String, Value)> {
     // every relation of one block to one prefix, alone and together with a second, unrelated block before / after it
     let pfxs = vec![p4([10, 0, 0, 0], 16), p4([0, 0, 0, 0], 0), p4([1, 2, 3, 4], 32), p4([255, 255, 255, 255], 32), p4([0, 0, 0, 0], 32),
                     p6("2001:db8::", 32), p6("::", 0), p6("2001:db8::1", 128), p6("ffff:ffff:ffff:ffff:ffff:ffff:ffff:ffff", 128), p6("::", 128)];
-    for p in &pfxs {
+    for (k, p) in pfxs.iter().enumerate() {
         for (rel, v4, b) in related_blocks(*p) {
             let probe: Vec<Value> = pfxs.iter().map(|q| q.json()).collect();
             cases.push((format!("relation.{}", rel), json!({"certs": [cert_of(v4, b.clone())], "prefixes": probe})));
+            if !(k == 0 || k == 5) && tier != "thorough" { continue; }
             let other = if v4 { json!(["p", (172u32 << 24).to_string(), 12]) } else { json!(["p", (0x2a04u128 << 112).to_string(), 29]) };
             cases.push((format!("relation2.{}", rel), json!({"certs": [cert_of(v4, other.clone()), cert_of(v4, b.clone())], "prefixes": probe})));
             cases.push((format!("relation2.{}", rel), json!({"certs": [cert_of(v4, b.clone()), cert_of(v4, other)], "prefixes": probe})));
         }
     }
     // random block lists: sorted (fast path of from_iter), unsorted, with adjacent and nested blocks
-    let n = if tier == "thorough" { 5000 } else { 700 };
+    let n = if tier == "thorough" { 5000 } else { 300 };
     for i in 0..n {
         let mut r = rng.fork();
         let mut v4: Vec<Value> = (0..r.below(6)).map(|_| rand_block(&mut r, true)).collect();
